@@ -42,10 +42,36 @@ def cases(tier, seed):
         base += [dict(c, reset=(1 << c['wd']) - 1) for c in designs.op_cases([1, 3, 8], ops='w', dests=('reg',))]
         base += [dict(c, reset=0) for c in designs.op_cases([1, 3, 8], ops='w+x', dests=('reg',))]
         base += designs.expr_cases(100, seed, n=8, maxw=5) + designs.seq_cases(widths=(1, 4, 8)) + designs.misc_cases()
+    base += [{'fam': 'C11X', 'kind': 'same_name_roms'}, {'fam': 'C11X', 'kind': 'generator_twice'}]
     for i, c in enumerate(base):
         for f in FUNCS:
             out.append(dict(c, K=3, func=f, edit=EDITS[(i + FUNCS.index(f)) % len(EDITS)]))
     return out
+
+
+def build_c11x(d):
+    """designs in which distinct memories share a name (legal: a generator that names its internal memory, instantiated twice)"""
+    k = d['kind']
+    a = pyrtl.Input(2, 'a')
+    if k == 'same_name_roms':
+        r1 = pyrtl.RomBlock(bitwidth=4, addrwidth=2, romdata=[1, 7, 12, 3], name='tbl', asynchronous=True)
+        r2 = pyrtl.RomBlock(bitwidth=4, addrwidth=2, romdata=[9, 2, 5, 14], name='tbl', asynchronous=True)
+        o1, o2 = pyrtl.Output(4, 'o1'), pyrtl.Output(4, 'o2')
+        o1 <<= r1[a]
+        o2 <<= r2[a]
+    else:
+        def unit(tag, data):
+            rom = pyrtl.RomBlock(bitwidth=3, addrwidth=2, romdata=data, name='lut', asynchronous=True)
+            r = pyrtl.Register(3, 'acc_' + tag)
+            r.next <<= (r + rom[a])[0:3]
+            return r
+        o1, o2 = pyrtl.Output(3, 'o1'), pyrtl.Output(3, 'o2')
+        o1 <<= unit('x', {0: 1, 1: 2, 2: 3, 3: 4})
+        o2 <<= unit('y', lambda i: (5 * i + 2) % 8)
+    return pyrtl.working_block()
+
+
+designs.register_family('C11X', build_c11x)
 
 
 def fingerprint(b):
@@ -60,6 +86,15 @@ def fingerprint(b):
     byname = sorted((k, id(v)) for k, v in b.wirevector_by_name.items())
     membyname = sorted((k, id(v)) for k, v in getattr(b, 'memblock_by_name', {}).items())
     return (wires, nets, mems, byname, membyname)
+
+
+def mems_registered(B):
+    """every name used by a memory of B resolves, in B.memblock_by_name, to one of B's own memories of that name (several
+    distinct memories may share a name)"""
+    byname = {}
+    for n in B.logic_subset('m@'):
+        byname.setdefault(n.op_param[1].name, set()).add(id(n.op_param[1]))
+    return all(id(B.memblock_by_name.get(k)) in ids for k, ids in byname.items())
 
 
 def call(case, A):
@@ -170,9 +205,7 @@ def run_case(case, ob, tier):
     bmems = {id(n.op_param[1]) for n in B.logic_subset('m@')}
     ob.fact('no-shared-memory-objects', not (amems & bmems), site + ':shared-mems')
     # the result's memories are registered with the result (and only there)
-    bm = {n.op_param[1].name: n.op_param[1] for n in B.logic_subset('m@')}
-    ob.fact('result-memories-registered-with-result',
-            all(B.memblock_by_name.get(k) is m for k, m in bm.items()), site + ':memblock_by_name')
+    ob.fact('result-memories-registered-with-result', mems_registered(B), site + ':memblock_by_name')
     if case['func'] in ('copy', 'opt'):
         ra = {r.name: r.reset_value for r in A.wirevector_subset(pyrtl.Register)}
         rb = {r.name: r.reset_value for r in B.wirevector_subset(pyrtl.Register)}
@@ -183,6 +216,13 @@ def run_case(case, ob, tier):
     same_trace(ob, A, before, after, assume, v, site + ':source-after-call')
     # result behaves like the source (reset values and ROM contents count)
     pair, mk = make_pair(case, A, B)
+    if case['func'] == 'opt':
+        gone = {r.name for r in A.wirevector_subset(pyrtl.Register)} - {r.name for r in B.wirevector_subset(pyrtl.Register)}
+        if gone:
+            # optimize() removed constant registers: the result may differ from the source until the steady state (the
+            # sanctioned difference decided under C04); only the source-side claims of this property are checked here
+            ob.notes.append('optimize eliminated registers: result-vs-source comparison left to C04')
+            return
     equiv.bmc_outputs(ob, pair, K, v, site + ':result-vs-source:bmc-from-reset', reg_init='reset', memkeyB=mk, assume=assume)
     # an explicit reset_value (including 0) must win over a non-zero default_value in the copy as in the source
     regsA = A.wirevector_subset(pyrtl.Register)
@@ -242,8 +282,7 @@ def replay(cex):
                   'no-shared-wire-objects': not (set(map(id, A.wirevector_set)) & set(map(id, B.wirevector_set))),
                   'no-shared-memory-objects': not ({id(n.op_param[1]) for n in A.logic_subset('m@')}
                                                    & {id(n.op_param[1]) for n in B.logic_subset('m@')}),
-                  'result-memories-registered-with-result': all(
-                      B.memblock_by_name.get(n.op_param[1].name) is n.op_param[1] for n in B.logic_subset('m@')),
+                  'result-memories-registered-with-result': mems_registered(B),
                   'register-reset-values-preserved': all(
                       {r.name: r.reset_value for r in B.wirevector_subset(pyrtl.Register)}.get(r.name, r.reset_value) == r.reset_value
                       for r in A.wirevector_subset(pyrtl.Register))}
